@@ -23,10 +23,7 @@ def main():
     try:
         sh(["rsync", "-a", "--exclude", "_build", REPO + "/", crepo + "/"])
         sh(["rsync", "-a", "--exclude", ".git", "--exclude", "build/replay", "--exclude", "build/scratch", "--exclude", "seeded",
-            "--exclude", "build/reflake", VERIF + "/", cverif + "/"])
-        if os.path.isdir(os.path.join(VERIF, "build", "reflake")):
-            # the reference workspace is only read on an unchanged /verif: hard links instead of a 300 MB copy
-            sh(["cp", "-al", os.path.join(VERIF, "build", "reflake"), os.path.join(cverif, "build", "reflake")])
+            VERIF + "/", cverif + "/"])
         r = sh(["git", "-C", crepo, "apply", patch])
         if r.returncode != 0:
             print(patch, "does not apply:", r.stdout[-300:])
